@@ -75,12 +75,26 @@ def main(args):
         meta = json.load(open(os.path.join(sdir, d, 'meta.json')))
         tmp = scratch()
         try:
-            r = subprocess.run(['patch', '-p1', '-s', '-i', os.path.join(sdir, d, 'patch.diff')], cwd=tmp + '/repo')
+            r = subprocess.run(['patch', '-p1', '-s', '-i', os.path.join(sdir, d, 'patch.diff')], cwd=tmp + '/repo', stdout=subprocess.DEVNULL, stderr=subprocess.DEVNULL)
+            baseline = {}
             if r.returncode != 0:
-                results.append((d, 'seeded', 'SKIP (patch does not apply)'))
-                continue
+                # the seed predates a later fix: commit in /repo: replay it on the commit it was written for and report only what the
+                # patch adds over that base
+                base = meta.get('confirmed', {}).get('base_commit')
+                shutil.rmtree(tmp + '/repo', ignore_errors=True)
+                os.makedirs(tmp + '/repo')
+                a = subprocess.run(f'git -C /repo archive {base} | tar -x -C {tmp}/repo', shell=True)
+                if not base or a.returncode != 0:
+                    results.append((d, 'seeded', 'SKIP (patch does not apply)'))
+                    continue
+                baseline = {p: set(r_[1]) for p, r_ in run_checks(tmp, have).items()}
+                r = subprocess.run(['patch', '-p1', '-s', '-i', os.path.join(sdir, d, 'patch.diff')], cwd=tmp + '/repo')
+                if r.returncode != 0:
+                    results.append((d, 'seeded', 'SKIP (patch does not apply to its own base)'))
+                    continue
             res = run_checks(tmp, have)
-            hit = {p: r for p, r in res.items() if r[0] != 0}
+            hit = {p: (r_[0], [k for k in r_[1] if k not in baseline.get(p, set())]) for p, r_ in res.items() if r_[0] != 0}
+            hit = {p: r_ for p, r_ in hit.items() if r_[1] or not baseline}
             results.append((d, 'seeded', ('DETECTED by ' + ', '.join(f'{p}:{r[1][:2]}' for p, r in hit.items())) if hit else 'MISSED'))
             if os.environ.get('SELFTEST_RECORD'):
                 meta['detected_by'] = {p: r[1][:4] for p, r in hit.items()}
